@@ -114,7 +114,63 @@ func mergeParallel(w *load.World, c *core.Collector, f *ssa.Function, props []st
 	default:
 		c.Add("MERGE", "set-algebra", core.Violation, w.At(or), "_or does not select the union of the sub-results, or _and not their intersection", props...)
 	}
-	// dedupe and gate
+	// dedupe and gate: in the function that appends the merged results (a helper of this one after
+	// a refactoring), with the disjunction flag followed into it
+	orig := f
+	hasAppend := func(g *ssa.Function) bool {
+		for _, wr := range resultWrites(g) {
+			if _, ok := wr.(*ssa.Call); ok {
+				return true
+			}
+		}
+		return false
+	}
+	if m := homeOf(f, hasAppend); m != f {
+		// which parameter of the helper carries the flag, and with which polarity
+		var mp *ssa.Parameter
+		inverted := false
+		for _, b := range f.Blocks {
+			for _, in := range b.Instrs {
+				if ssax.StaticModuleCallee(in) != m {
+					continue
+				}
+				for i, a := range in.(ssa.CallInstruction).Common().Args {
+					if i >= len(m.Params) {
+						break
+					}
+					if a == ssa.Value(disj) {
+						mp, inverted = m.Params[i], false
+					}
+					if u, ok := a.(*ssa.UnOp); ok && u.Op == token.NOT && u.X == ssa.Value(disj) {
+						mp, inverted = m.Params[i], true
+					}
+				}
+			}
+		}
+		if mp != nil {
+			f = m
+			disjTrue, disjFalse = nil, nil
+			for _, b := range f.Blocks {
+				ifi, ok := b.Instrs[len(b.Instrs)-1].(*ssa.If)
+				if !ok {
+					continue
+				}
+				cond, neg := ifi.Cond, false
+				if u, ok := cond.(*ssa.UnOp); ok && u.Op == token.NOT {
+					cond, neg = u.X, true
+				}
+				if cond != ssa.Value(mp) {
+					continue
+				}
+				t, e := 0, 1
+				if neg != inverted {
+					t, e = 1, 0
+				}
+				disjTrue = append(disjTrue, ssax.Edge{From: b, Succ: t})
+				disjFalse = append(disjFalse, ssax.Edge{From: b, Succ: e})
+			}
+		}
+	}
 	writes := resultWrites(f)
 	var seenFalse []ssax.Edge // edges on which the node id was not in the de-duplication map
 	var seenTrue []ssax.Edge
@@ -230,6 +286,7 @@ func mergeParallel(w *load.World, c *core.Collector, f *ssa.Function, props []st
 	} else {
 		c.Add("MERGE", "sum-on-duplicate", core.Violation, w.Position(f.Pos()), "when a point was already found by another sub-query its hybrid score is not added to the entry held: the contributions of the sub-queries are not summed", props...)
 	}
+	f = orig
 	// order: every success return of merged ranked results (more than the single-query shortcut) is sorted descending
 	if sortCall == nil {
 		c.Add("MERGE", "order", core.Violation, w.Position(f.Pos()), "merged results are not sorted by hybrid score", props...)
@@ -440,10 +497,15 @@ func mergeSortKeys(w *load.World, c *core.Collector, props []string) {
 		return
 	}
 	// evaluate the comparator with the presence flags (and, later, the descending flag) fixed
+	predOf := map[*ssa.BasicBlock]*ssa.BasicBlock{}
 	run := func(av, bv bool, desc *bool) (rets []ssa.Value, cmpCalls []*ssa.Call) {
 		type frame struct {
 			b     *ssa.BasicBlock
 			steps int
+			from  *ssa.BasicBlock
+		}
+		for k := range predOf {
+			delete(predOf, k)
 		}
 		var evalB func(v ssa.Value, depth int) (bool, bool)
 		evalB = func(v ssa.Value, depth int) (bool, bool) {
@@ -477,7 +539,7 @@ func mergeSortKeys(w *load.World, c *core.Collector, props []string) {
 			return false, false
 		}
 		seen := map[*ssa.BasicBlock]bool{}
-		work := []frame{{cmpFn.Blocks[0], 0}}
+		work := []frame{{cmpFn.Blocks[0], 0, nil}}
 		for len(work) > 0 {
 			fr := work[len(work)-1]
 			work = work[:len(work)-1]
@@ -485,6 +547,7 @@ func mergeSortKeys(w *load.World, c *core.Collector, props []string) {
 				continue
 			}
 			seen[fr.b] = true
+			predOf[fr.b] = fr.from
 			for _, in := range fr.b.Instrs {
 				if call, ok := in.(*ssa.Call); ok {
 					if g := call.Call.StaticCallee(); g != nil && g.Name() == "CompareAny" {
@@ -496,16 +559,16 @@ func mergeSortKeys(w *load.World, c *core.Collector, props []string) {
 			case *ssa.Return:
 				rets = append(rets, last.Results[0])
 			case *ssa.Jump:
-				work = append(work, frame{fr.b.Succs[0], fr.steps + 1})
+				work = append(work, frame{fr.b.Succs[0], fr.steps + 1, fr.b})
 			case *ssa.If:
 				if b, ok := evalB(last.Cond, 0); ok {
 					if b {
-						work = append(work, frame{fr.b.Succs[0], fr.steps + 1})
+						work = append(work, frame{fr.b.Succs[0], fr.steps + 1, fr.b})
 					} else {
-						work = append(work, frame{fr.b.Succs[1], fr.steps + 1})
+						work = append(work, frame{fr.b.Succs[1], fr.steps + 1, fr.b})
 					}
 				} else {
-					work = append(work, frame{fr.b.Succs[0], fr.steps + 1}, frame{fr.b.Succs[1], fr.steps + 1})
+					work = append(work, frame{fr.b.Succs[0], fr.steps + 1, fr.b}, frame{fr.b.Succs[1], fr.steps + 1, fr.b})
 				}
 			}
 		}
@@ -538,8 +601,29 @@ func mergeSortKeys(w *load.World, c *core.Collector, props []string) {
 		_, calls := run(true, true, &dd)
 		name := map[bool]string{true: "descending", false: "ascending"}[d]
 		okDir := len(calls) > 0
+		// an operand chosen by a swap (`first, second = bv, av`) is a phi: with the flags fixed the
+		// walk took one predecessor, which selects the phi's edge
+		resolve := func(v ssa.Value) ssa.Value {
+			for i := 0; i < 4; i++ {
+				phi, ok := v.(*ssa.Phi)
+				if !ok {
+					break
+				}
+				from := predOf[phi.Block()]
+				picked := false
+				for k, p := range phi.Block().Preds {
+					if p == from && k < len(phi.Edges) {
+						v, picked = phi.Edges[k], true
+					}
+				}
+				if !picked {
+					break
+				}
+			}
+			return v
+		}
 		for _, call := range calls {
-			o0, o1 := ssax.Prov(call.Call.Args[0]), ssax.Prov(call.Call.Args[1])
+			o0, o1 := ssax.Prov(resolve(call.Call.Args[0])), ssax.Prov(resolve(call.Call.Args[1]))
 			firstIsA := o0["param:"+pa.Name()] && !o0["param:"+pb.Name()] && o1["param:"+pb.Name()]
 			firstIsB := o0["param:"+pb.Name()] && !o0["param:"+pa.Name()] && o1["param:"+pa.Name()]
 			if d && !firstIsB || !d && !firstIsA {
